@@ -162,3 +162,187 @@ Definition add_symbols (st : symtab) (symbols : list string) : symtab := fold_le
     path = os.path.join(GEN, "Symtab_gen.v")
     write_if_changed(path, text)
     return "gen/Symtab_gen.v"
+
+
+# ---- the call-stack endpoint comparators -> coq/gen/Cmp_gen.v ----
+class _Fn:
+    """Symbolic execution of a small Python function (if/elif/else, returns, assignments to locals, raise) into one
+    Gallina expression of type `option T` (None = the Python code raises)."""
+
+    def __init__(self, fn: ast.FunctionDef, rtype: str, fields: Dict[str, str], consts: Dict[str, int], calls: Dict[str, str]):
+        self.fn, self.rtype, self.fields, self.consts, self.calls = fn, rtype, fields, consts, calls
+        self.args = [a.arg for a in fn.args.args]
+
+    # -- expressions: returns (text, type) with type in {"Z", "bool", "optbool"}
+    def ex(self, e, env) -> tuple:
+        if isinstance(e, ast.Constant):
+            if isinstance(e.value, bool):
+                return ("true" if e.value else "false", "bool")
+            if isinstance(e.value, int):
+                return (f"({e.value})" if e.value < 0 else str(e.value), "Z")
+            raise Stop(f"constant {e.value!r}")
+        if isinstance(e, ast.Name):
+            if e.id in env:
+                return env[e.id]
+            if e.id in self.args:
+                return (e.id, "ep")
+            if e.id in self.consts:
+                v = self.consts[e.id]
+                return (f"({v})" if v < 0 else str(v), "Z")
+            raise Stop(f"unknown name {e.id}")
+        if isinstance(e, ast.UnaryOp) and isinstance(e.op, ast.USub):
+            t, ty = self.ex(e.operand, env)
+            if ty != "Z":
+                raise Stop("negation of a non-integer")
+            return (f"(- {t})", "Z")
+        if isinstance(e, ast.UnaryOp) and isinstance(e.op, ast.Not):
+            t, ty = self.ex(e.operand, env)
+            return (f"(negb {t})", "bool")
+        if isinstance(e, ast.BinOp) and isinstance(e.op, (ast.Sub, ast.Add)):
+            a, ta = self.ex(e.left, env)
+            b_, tb = self.ex(e.right, env)
+            if ta != "Z" or tb != "Z":
+                raise Stop("arithmetic on non-integers")
+            return (f"({a} {'-' if isinstance(e.op, ast.Sub) else '+'} {b_})", "Z")
+        if isinstance(e, ast.Subscript) and isinstance(e.value, ast.Name) and e.value.id in self.args and isinstance(e.slice, ast.Name):
+            if e.slice.id not in self.fields:
+                raise Stop(f"subscript {e.slice.id}")
+            return (f"({self.fields[e.slice.id]} {e.value.id})", "Z")
+        if isinstance(e, ast.Attribute) and isinstance(e.value, ast.Name) and e.value.id in self.args:
+            if e.attr not in self.fields:
+                raise Stop(f"attribute {e.attr}")
+            return (f"({self.fields[e.attr]} {e.value.id})", "Z")
+        if isinstance(e, ast.Compare) and len(e.ops) == 1:
+            a, ta = self.ex(e.left, env)
+            b_, tb = self.ex(e.comparators[0], env)
+            if ta != "Z" or tb != "Z":
+                raise Stop("comparison of non-integers")
+            op = e.ops[0]
+            tbl = {ast.Eq: "{a} =? {b}", ast.NotEq: "negb ({a} =? {b})", ast.Lt: "{a} <? {b}", ast.Gt: "{b} <? {a}", ast.LtE: "{a} <=? {b}",
+                   ast.GtE: "{b} <=? {a}"}
+            for k, v in tbl.items():
+                if isinstance(op, k):
+                    return ("(" + v.format(a=a, b=b_) + ")", "bool")
+            raise Stop("comparison operator")
+        if isinstance(e, ast.BoolOp):
+            parts = [self.ex(v, env) for v in e.values]
+            if any(t != "bool" for _, t in parts):
+                raise Stop("and/or of non-booleans")
+            sep = " && " if isinstance(e.op, ast.And) else " || "
+            return ("(" + sep.join(p for p, _ in parts) + ")", "bool")
+        if isinstance(e, ast.IfExp):
+            c, tc = self.ex(e.test, env)
+            a, ta = self.ex(e.body, env)
+            b_, tb = self.ex(e.orelse, env)
+            if tc != "bool" or ta != tb:
+                raise Stop("conditional expression")
+            return (f"(if {c} then {a} else {b_})", ta)
+        if isinstance(e, ast.Call) and isinstance(e.func, ast.Name) and e.func.id in self.calls and not e.keywords:
+            args = [self.ex(a, env)[0] for a in e.args]
+            return (f"({self.calls[e.func.id]} {' '.join(args)})", "optbool")
+        raise Stop(f"expression {ast.dump(e)[:80]}")
+
+    # -- statements: the expression for executing stmts (then `rest` if control falls through)
+    def block(self, stmts, env) -> str:
+        if not stmts:
+            raise Stop("control falls off the end of the function")
+        st, rest = stmts[0], stmts[1:]
+        if isinstance(st, ast.Expr) and isinstance(st.value, ast.Constant) and isinstance(st.value.value, str):
+            return self.block(rest, env)
+        if isinstance(st, ast.Return):
+            t, ty = self.ex(st.value, env)
+            if ty == "optbool":
+                if self.rtype != "bool":
+                    raise Stop("returning an optional boolean from an integer function")
+                return t
+            if ty != self.rtype:
+                raise Stop(f"return of type {ty}, expected {self.rtype}")
+            return f"Some {t}"
+        if isinstance(st, ast.Raise):
+            return "None"
+        if isinstance(st, (ast.Assign, ast.AnnAssign)):
+            tgt = st.targets[0] if isinstance(st, ast.Assign) else st.target
+            if not isinstance(tgt, ast.Name) or st.value is None:
+                raise Stop("assignment target")
+            env2 = dict(env)
+            env2[tgt.id] = self.ex(st.value, env)
+            return self.block(rest, env2)
+        if isinstance(st, ast.If):
+            c, tc = self.ex(st.test, env)
+            if tc != "bool":
+                raise Stop("if on a non-boolean")
+            # variables assigned in the branches are threaded by duplicating the continuation
+            a = self.block(list(st.body) + rest, env)
+            b_ = self.block(list(st.orelse) + rest, env)
+            return f"(if {c}\n   then {a}\n   else {b_})"
+        raise Stop(f"statement {type(st).__name__}")
+
+
+def _find_fn(path: str, name: str) -> ast.FunctionDef:
+    tree = ast.parse(open(os.path.join(fw.REPO, path)).read())
+    for node in tree.body:
+        if isinstance(node, ast.FunctionDef) and node.name == name:
+            return node
+    raise Stop(f"{path}: function {name} not found")
+
+
+def _module_consts(path: str, names: List[str]) -> Dict[str, int]:
+    tree = ast.parse(open(os.path.join(fw.REPO, path)).read())
+    out: Dict[str, int] = {}
+    for node in tree.body:
+        tgt = None
+        if isinstance(node, ast.Assign) and len(node.targets) == 1 and isinstance(node.targets[0], ast.Name):
+            tgt, val = node.targets[0].id, node.value
+        elif isinstance(node, ast.AnnAssign) and isinstance(node.target, ast.Name) and node.value is not None:
+            tgt, val = node.target.id, node.value
+        if tgt in names:
+            try:
+                out[tgt] = int(ast.literal_eval(val))
+            except Exception:
+                raise Stop(f"{path}: constant {tgt} is not an integer literal")
+    missing = [n for n in names if n not in out]
+    if missing:
+        raise Stop(f"{path}: constants {missing} not found")
+    return out
+
+
+def gen_cmp() -> str:
+    new = "hta/common/trace_call_stack.py"
+    old = "hta/common/call_stack.py"
+    cn = _module_consts(new, ["_I_INDEX", "_I_DUR", "_I_KIND", "_I_TIME", "OPEN_END", "CLOSE_END"])
+    co = _module_consts(old, ["EVENT_START", "EVENT_END"])
+    pos = {cn["_I_INDEX"]: "e_idx", cn["_I_DUR"]: "e_dur", cn["_I_KIND"]: "e_kind", cn["_I_TIME"]: "e_time"}
+    if sorted(pos) != [0, 1, 2, 3]:
+        raise Stop("endpoint array layout is not a permutation of 0..3")
+    fields_new = {k: pos[cn[k]] for k in ("_I_INDEX", "_I_DUR", "_I_KIND", "_I_TIME")}
+    consts_new = {"OPEN_END": cn["OPEN_END"], "CLOSE_END": cn["CLOSE_END"]}
+    f0 = _Fn(_find_fn(new, "_cmp_events_with_zero_duration"), "bool", fields_new, consts_new, {})
+    f1 = _Fn(_find_fn(new, "_less_than"), "bool", fields_new, consts_new, {"_cmp_events_with_zero_duration": "cmp_zero_gen"})
+    f2 = _Fn(_find_fn(old, "compare_events"), "Z", {"idx": "e_idx", "dur": "e_dur", "type": "e_kind", "time": "e_time"},
+             {"EVENT_START": co["EVENT_START"], "EVENT_END": co["EVENT_END"]}, {})
+    for f in (f0, f1, f2):
+        if len(f.args) != 2:
+            raise Stop(f"{f.fn.name}: expected two arguments")
+    text = f'''(* GENERATED by harness/translate.py from hta/common/trace_call_stack.py (_cmp_events_with_zero_duration, _less_than)
+   and hta/common/call_stack.py (compare_events) -- do not edit.  None = the Python code raises. *)
+From HTA.lib Require Import Base.
+Open Scope Z_scope.
+
+(* one end of an event: (index, dur, kind, time) *)
+Record ep := mkEp {{ e_idx : Z; e_dur : Z; e_kind : Z; e_time : Z }}.
+Definition OPEN_END : Z := {fw.z(cn["OPEN_END"])}.
+Definition CLOSE_END : Z := {fw.z(cn["CLOSE_END"])}.
+Definition EVENT_START : Z := {fw.z(co["EVENT_START"])}.
+Definition EVENT_END : Z := {fw.z(co["EVENT_END"])}.
+
+Definition cmp_zero_gen ({f0.args[0]} {f0.args[1]} : ep) : option bool :=
+  {f0.block(list(f0.fn.body), {})}.
+
+Definition less_than_gen ({f1.args[0]} {f1.args[1]} : ep) : option bool :=
+  {f1.block(list(f1.fn.body), {})}.
+
+Definition compare_events_gen ({f2.args[0]} {f2.args[1]} : ep) : option Z :=
+  {f2.block(list(f2.fn.body), {})}.
+'''
+    write_if_changed(os.path.join(GEN, "Cmp_gen.v"), text)
+    return "gen/Cmp_gen.v"
